@@ -1,28 +1,31 @@
 (* C09 — every basis projection and operator element equals its defining Abel
    integral.  Only statements here; proofs are in proofs/AbelLemmas.v,
-   proofs/C09Daun.v, proofs/C09Dasch.v.
+   proofs/C09Daun.v, proofs/C09Daun2.v, proofs/C09Daun3.v, proofs/C09Dasch.v,
+   proofs/C09Rbasex.v.
 
    Model: model/Abel.v
      Abel f Rm x    = 2 * int_0^sqrt(Rm^2-x^2) f(sqrt(x^2+y^2)) dy      (Coquelicot RInt)
      InvAbel dP Rm r = -1/pi * int_0^sqrt(Rm^2-r^2) dP(rho)/rho dy,  rho = sqrt(r^2+y^2)
-     rect c, tri c  : the degree-0 / degree-1 basis functions of abel/daun.py
+     rect c, tri c, quad2 c, herm_p c, herm_q c : the basis functions of abel/daun.py
+                      (degrees 0, 1, 2 and the Hermite pair of degree 3)
+     rbasex_proj n R r : 2 int tri_R(rho) (r/rho)^n dy  (abel/rbasex.py)
      dhat c, dpar c : derivative of the two-point (piecewise linear) and of the
                       three-point (piecewise parabolic) interpolant of the unit
                       data vector e_c  (abel/dasch.py, Dasch Eq. (7)-(10)).
-   The formulas daun_p0/1/2, onion_W, two_point_D, three_point_D, rbasex_p0..8 are NOT
+   The formulas daun_p0/1/2/3, daun_q3, onion_W, two_point_D, three_point_D, rbasex_p0..8 are NOT
    written by hand: gen/FormulasBasis.v is regenerated from abel/daun.py,
    abel/dasch.py, abel/rbasex.py on every run (tools/translate/formulas_basis.py), including the
    symbolic execution of the slice / index-set statements into per-entry guards.
    Indices are integers (Z); every theorem holds for all sizes and indices.
 
    Not covered by theorems (per-instance Interval goals + quadrature sweep, see
-   evidence): daun degree 3 (Hermite pieces + spline solve), basex.  The Dasch axis row i = 0
+   evidence): the clamped-spline solve of daun degree 3, basex.  The Dasch axis row i = 0
    is a documented convention of the methods (the integrand P'(x)/x of the
    interpolant is not integrable at the axis); it is tied to the code only by
    the translation validation. *)
 From Coq Require Import Reals ZArith Lia Lra.
 From Coquelicot Require Import Coquelicot.
-From PA Require Import model.Abel proofs.AbelLemmas proofs.C09Daun proofs.C09Daun2 proofs.C09Dasch proofs.C09Rbasex gen.FormulasBasis.
+From PA Require Import model.Abel proofs.AbelLemmas proofs.C09Daun proofs.C09Daun2 proofs.C09Daun3 proofs.C09Dasch proofs.C09Rbasex gen.FormulasBasis.
 Open Scope R_scope.
 
 (* daun, degree 0: A[j][i] is the Abel transform at pixel i of the indicator of
@@ -46,6 +49,17 @@ Theorem C09_daun2_entry : forall i j : Z, (0 <= i)%Z -> (0 <= j)%Z ->
   daun_p2 j i = Abel (quad2 (IZR j)) (IZR j + 1) (IZR i).
 Proof. exact daun2_entry. Qed.
 Print Assumptions C09_daun2_entry.
+
+(* daun, degree 3: the Hermite value and derivative projections p(j), q(j) of
+   _bs_daun are the Abel transforms of the Hermite basis functions
+   1 - 3t^2 + 2t^3 and u (1 - |u|)^2 (u = r - j, t = |u| <= 1).  The combination
+   of both into the clamped cubic spline basis (solve_banded) is not modelled:
+   `_partial` with respect to the degree-3 matrix. *)
+Theorem C09_daun3_hermite_entry_partial : forall i j : Z, (0 <= i)%Z -> (0 <= j)%Z ->
+  daun_p3 j i = Abel (herm_p (IZR j)) (IZR j + 1) (IZR i) /\
+  daun_q3 j i = Abel (herm_q (IZR j)) (IZR j + 1) (IZR i).
+Proof. intros i j Hi Hj; split; [apply daun3p_entry | apply daun3q_entry]; assumption. Qed.
+Print Assumptions C09_daun3_hermite_entry_partial.
 
 (* the same at every real position x and centre c (not only pixels) *)
 Theorem C09_abel_rect_real : forall x c : R, 0 <= x -> 0 <= c ->
